@@ -10,4 +10,5 @@ CONSTANTS
   CallsOnly = TRUE
   Rich = TRUE
   Inplace = FALSE
+  Collectors = FALSE
 CHECK_DEADLOCK FALSE
